@@ -7,7 +7,7 @@ from typing import Any, Dict, Iterator, List
 
 USER = ["a", "b", "c"]
 POOL = [1, 2, 3, 4, 5, 6, 7, 8, 9, 10, 11, 12, 13, 14, 15, 16, 17, 18, 19, 20, 21, 27, 28, 40, 41, 42, 43, 44, 46, 47]
-MODES = ["ok", "fail", "nores", "requeue"]
+MODES = ["ok", "fail", "fail", "failb", "nores", "requeue"]
 
 
 def _mws(rng: random.Random) -> List[Dict[str, Any]]:
@@ -115,7 +115,8 @@ def gen_retry_enum(maxlen: int = 7, maxes: List[int] = list(range(0, 7))) -> Ite
         # outcome sequences: k failures followed by one of ok / nores / nothing
         for k in range(0, L + 1):
             for last in ("ok", "nores", "fail"):
-                ops: List[Any] = [["tkiq", False]] + [["run_last", "fail"]] * k + [["run_last", last]]
+                fm = "failb" if (k + mx) % 3 == 0 else "fail"
+                ops: List[Any] = [["tkiq", False]] + [["run_last", fm]] * k + [["run_last", fm if last == "fail" else last]]
                 yield {"cfg": {"decl": decl, "retry": retry, "ser": "json" if (k + mx) % 2 else "pickle"}, "ops": ops,
                        "family": "retry_enum"}
 
